@@ -519,14 +519,30 @@ def F11(m, R):
         R.ok(f, f.node, 'no shortcut return of the receiver', construct='_strip shortcut')
         return
     g = hits[0]
-    names = names_in(g.test) - {inplace}
-    # lcount / rcount names: the two counters (lcount: 0, 1, 2 ...; rcount: None or negative)
+    # a condition named first (`nothing = lc == 0 and rc is None; if inplace and nothing:`): read through when the name is bound right before the test
+    gtest = g.test
+    idx_ = f.body.index(g)
+    prev_ = f.body[idx_ - 1] if idx_ > 0 else None
+    if isinstance(prev_, ast.Assign) and len(prev_.targets) == 1 and isinstance(prev_.targets[0], ast.Name) and prev_.targets[0].id in names_in(gtest) and \
+            isinstance(prev_.value, (ast.BoolOp, ast.Compare, ast.UnaryOp)) and \
+            sum(1 for x in f.walk() if isinstance(x, ast.Name) and x.id == prev_.targets[0].id and isinstance(x.ctx, ast.Store)) == 1:
+        from ..shapes import subst as _subst_f11
+        gtest = _subst_f11(gtest, {prev_.targets[0].id: prev_.value})
+    names = names_in(gtest) - {inplace}
+    # the two counters (left: 0, 1, 2 ...; right: None or negative): told apart by the clip(left, right, inplace) call they end up in
     bad = []
     cnts = sorted(names)
     if len(cnts) != 2:
         R.undecided(f, g, 'shortcut guard %s' % short(g.test), construct='_strip shortcut')
         return
     lc, rc = cnts[0], cnts[1]
+    clips = [n for n in f.walk() if isinstance(n, ast.Call) and call_name(n) == 'clip' and len(n.args) >= 2 and all(isinstance(a_, ast.Name) for a_ in n.args[:2])]
+    if clips and {clips[-1].args[0].id, clips[-1].args[1].id} == set(cnts):
+        lc, rc = clips[-1].args[0].id, clips[-1].args[1].id
+
+    class _G:
+        test = gtest
+    g_node, g = g, _G
     for lv in (0, 1, 2):
         for rv in (None, -1, -2):
             for ip in (True, False):
@@ -537,7 +553,7 @@ def F11(m, R):
                     order[rc] = rv
                 got = eval_guard(g.test, merge_valuations(flag_valuation({inplace: ip}, ex), order_valuation(order)))
                 if got is None:
-                    R.undecided(f, g, 'shortcut guard %s' % short(g.test), construct='_strip shortcut')
+                    R.undecided(f, g_node, 'shortcut guard %s' % short(g.test), construct='_strip shortcut')
                     return
                 if got and lv != 0:
                     bad.append('returns the receiver untouched although characters are to be stripped on the left')
@@ -545,7 +561,7 @@ def F11(m, R):
                     bad.append('returns the receiver untouched although characters are to be stripped on the right')
                 if got and not ip:
                     bad.append('returns the receiver itself for inplace=False')
-    R.check(not bad, f, g, 'the shortcut is taken only in place and only with nothing to strip', '; '.join(sorted(set(bad))), construct='_strip shortcut')
+    R.check(not bad, f, g_node, 'the shortcut is taken only in place and only with nothing to strip', '; '.join(sorted(set(bad))), construct='_strip shortcut')
 
 
 @rule('F4', 'query-arms: ansi_settings_at copies the active list before the iterator passes idx; find_settings arms', floor=4)
@@ -561,24 +577,49 @@ def F4(m, R):
     cons = 'ansi_settings_at scan'
     problems = []
     body = loop.body
+    # plain copies made in the iteration are read through: `s = sidx_1`, `snap = list(active)` ... `result = snap`
+    env_ = {}
+
+    def res(e_):
+        t_ = norm(e_)
+        seen_ = set()
+        while t_ in env_ and t_ not in seen_:
+            seen_.add(t_)
+            t_ = env_[t_]
+        return t_
+    copies = ('list(%s)' % active, '%s.copy()' % active, '%s[:]' % active)
     brk = next((s for s in body if isinstance(s, ast.If) and any(isinstance(x, ast.Break) for x in s.body)), None)
-    cp = next((s for s in body if isinstance(s, ast.Assign) and norm(s.value) in ('list(%s)' % active, '%s.copy()' % active, '%s[:]' % active)), None)
+    cp = None
+    for s_ in body:
+        if s_ is brk:
+            env_at_brk = dict(env_)
+        if isinstance(s_, ast.Assign) and len(s_.targets) == 1 and isinstance(s_.targets[0], ast.Name):
+            v_ = res(s_.value)
+            if v_ in copies and (brk is None or body.index(s_) > body.index(brk)):
+                cp = s_
+            env_[s_.targets[0].id] = v_ if (isinstance(s_.value, ast.Name) or v_ in copies) else norm(s_.value)
     if brk is None:
         problems.append('the scan never stops at idx')
     else:
         t = brk.test
         regs = None
         if isinstance(t, ast.Compare) and len(t.ops) == 1:
-            if norm(t.left) == sidx and norm(t.comparators[0]) == idx:
+            env_, env_full = env_at_brk, env_
+            l_, r_ = res(t.left), res(t.comparators[0])
+            env_ = env_full
+            if l_ == sidx and r_ == idx:
                 regs = cmp_regions(t.ops[0])
-            elif norm(t.left) == idx and norm(t.comparators[0]) == sidx:
+            elif l_ == idx and r_ == sidx:
                 regs = cmp_regions(t.ops[0], swapped=True)
         if regs != {'>'}:
             problems.append('the scan stops when %s; it must stop exactly at the first point beyond idx' % short(t))
     if cp is None:
-        problems.append('the active list is not copied (the iterator mutates it afterwards)')
-    elif brk is not None and body.index(cp) < body.index(brk):
-        problems.append('the copy is taken before the stop test')
+        early = next((s_ for s_ in body if isinstance(s_, ast.Assign) and brk is not None and body.index(s_) < body.index(brk) and isinstance(s_.targets[0], ast.Name)
+                      and any(norm(r_.value) == s_.targets[0].id for r_ in f.walk() if isinstance(r_, ast.Return))), None)
+        if early is not None:
+            problems.append('the result is taken before the stop test: the point beyond idx overwrites it')
+        else:
+            problems.append('the active list is not copied (the iterator mutates it afterwards)')
     rets = [n for n in f.walk() if isinstance(n, ast.Return)]
     if cp is not None and not any(norm(r.value) == norm(cp.targets[0]) for r in rets):
         problems.append('the copy is not what is returned')
